@@ -27,7 +27,7 @@ FAMILY = {"module": {2}, "program": {2}, "procedure": {12, 6}, "type": {5, 23}, 
 
 def plan(tier):
     if tier == "quick":
-        return {"ncases": 4000, "nshards": 16, "budget_s": 75, "floor": 40000, "stall_s": 60}
+        return {"ncases": 4000, "nshards": 16, "budget_s": 75, "floor": 20000, "stall_s": 60}
     return {"ncases": 60000, "nshards": 16, "budget_s": 1800, "floor": 800000, "stall_s": 240}
 
 
